@@ -12,11 +12,11 @@ Inductive outcome := Instrs (l : list pinstr) | Failed (e : Z).
 Definition err_code (e : aerr) : Z :=
   match e with ENoScratch => 1 | EDupLabel => 2 | EBuild => 3 end.
 
-Definition model_outcome (pr : aparams) (t : list row) (P : option (list acmd)) : outcome :=
+Definition model_outcome (pr : aparams) (t : list row) (rsv : list reg) (P : option (list acmd)) : outcome :=
   match P with
   | None => Failed 0
   | Some P =>
-      match assemble pr t P with
+      match assemble_res pr t rsv P with
       | AOk B => Instrs (unbody B)
       | AErr e => Failed (err_code e)
       end
@@ -97,13 +97,13 @@ Definition tgt_matches (T : list acmd) (fuel : nat) (start : astate) (o : obs) :
 (* the property's oracle: the executor's result equals the direct interpretation of
    the SOURCE program on every register that is not a possible scratch register,
    on arrays and shared memory; a fault is at the last line of the faulting
-   command's block *)
-Definition src_matches (pr : aparams) (P : list acmd) (fuel : nat) (start : astate) (o : obs) : bool :=
-  let nm := named P in
+   command's block; reserved registers count as named (they must keep their values) *)
+Definition src_matches (pr : aparams) (rsv : list reg) (P : list acmd) (fuel : nat) (start : astate) (o : obs) : bool :=
+  let nm := (named P ++ rsv)%list in
   let keep (r : reg) := negb (fst r =? ap_bankR pr) || mem_reg r nm in
   let view st := regs_view keep (s_regs st) in
   let oview := filter (fun p => keep (fst p)) (o_regs o) in
-  let last k := (pcmap pr P k + match nth_error P k with Some c => nsets pr nm c | None => 0 end)%nat in
+  let last k := (pcmap_nm pr nm P k + match nth_error P k with Some c => nsets pr nm c | None => 0 end)%nat in
   match arun P fuel (Run 0 start) with
   | Halted st => (o_kind o =? 0) && list_eqb regval_eqb (view st) oview && mem_matches (s_mem st) o
   | Fault k st =>
@@ -131,18 +131,19 @@ Record acase := mkAC {
   c_prog : list acmd;                 (* IR case: the proto-commands *)
   c_out : outcome;                    (* what parse_text_subroutine / assemble_subroutine produced *)
   c_fuel : nat;
-  c_obs : option obs                  (* executor run of the assembled program, if executed *)
+  c_obs : option obs;                 (* executor run of the assembled program, if executed *)
+  c_rsv : list reg                    (* reserved_registers passed to assemble_subroutine *)
 }.
 
 (* result code: 0 ok; +1 instruction lists differ; +2 oracle (source meaning) differs;
    +4 model interpreter differs from the executor on the assembled program *)
-Definition check_prog (pr : aparams) (t : list row) (P : option (list acmd)) (out : outcome)
+Definition check_prog (pr : aparams) (t : list row) (rsv : list reg) (P : option (list acmd)) (out : outcome)
            (fuel : nat) (start : astate) (ob : option obs) : Z :=
-  let a := if outcome_eqb (model_outcome pr t P) out then 0 else 1 in
+  let a := if outcome_eqb (model_outcome pr t rsv P) out then 0 else 1 in
   match P, ob with
   | Some P, Some o =>
-      let b := if src_matches pr P fuel start o then 0 else 2 in
-      let d := match assemble pr t P with
+      let b := if src_matches pr rsv P fuel start o then 0 else 2 in
+      let d := match assemble_res pr t rsv P with
                | AOk B => if tgt_matches (map embed B) fuel start o then 0 else 4
                | AErr _ => 4
                end in
@@ -152,11 +153,11 @@ Definition check_prog (pr : aparams) (t : list row) (P : option (list acmd)) (ou
 
 Definition check_acase (pr : aparams) (bk : banks) (gi : list string) (t : list row) (c : acase) : Z :=
   let P := match c_lines c with Some ls => parse_text bk gi ls | None => Some (c_prog c) end in
-  check_prog pr t P (c_out c) (c_fuel c) init_state (c_obs c).
+  check_prog pr t (c_rsv c) P (c_out c) (c_fuel c) init_state (c_obs c).
 
 (* ---------- C03: sequences of subroutines of one application ---------- *)
 
-Record sstep := mkSS { ss_prog : list acmd; ss_out : outcome; ss_obs : option obs }.
+Record sstep := mkSS { ss_prog : list acmd; ss_out : outcome; ss_obs : option obs; ss_rsv : list reg }.
 
 (* every subroutine starts, in source and in target, from the state the executor
    was really left in by the previous one; the code of the first differing step *)
@@ -164,7 +165,7 @@ Fixpoint check_steps (pr : aparams) (t : list row) (fuel : nat) (start : astate)
   match l with
   | [] => 0
   | s :: r =>
-      let c := check_prog pr t (Some (ss_prog s)) (ss_out s) fuel start (ss_obs s) in
+      let c := check_prog pr t (ss_rsv s) (Some (ss_prog s)) (ss_out s) fuel start (ss_obs s) in
       if c =? 0 then
         match ss_obs s with
         | Some o => if o_kind o =? 0 then check_steps pr t fuel (state_of_obs o) r else 0
